@@ -64,6 +64,19 @@ Theorem C10_radius_exact : forall c (m : amap) q r a d,
 Proof. exact radius_exact. Qed.
 Print Assumptions C10_radius_exact.
 
+Theorem C10_radius_no_duplicates : forall c (m : amap) q r,
+  NoDup (akeys m) -> NoDup (map fst (in_radius c m q r)).
+Proof. exact exp_radius_nodup. Qed.
+Print Assumptions C10_radius_no_duplicates.
+
+(* calculate_distances(q) lists every agent of the space once, in order, with its distance *)
+Theorem C10_distances_all : forall c (m : amap) q,
+  map fst (distances c m q) = akeys m /\
+  forall a p, NoDup (akeys m) -> In (a, p) m ->
+    In (a, dist2 (ec_torus c) (ec_bounds c) p q) (distances c m q).
+Proof. exact exp_distances_all. Qed.
+Print Assumptions C10_distances_all.
+
 (* every k-nearest outcome the model accepts: k distinct agents of the space, none of them farther
    than an agent left out; the distance reported for an agent is its distance *)
 Theorem C10_knearest : forall ds k out,
@@ -72,6 +85,14 @@ Theorem C10_knearest : forall ds k out,
   (forall a b d, In a out -> In (b, d) ds -> ~ In b out -> dist_of ds a <= d).
 Proof. exact knn_legal_sound. Qed.
 Print Assumptions C10_knearest.
+
+(* agent.get_nearest_neighbors(k): k distinct OTHER agents, none farther from the asking agent than one left out *)
+Theorem C10_nearest_neighbors : forall ds k a out,
+  knn_legal ds (S k) (a :: out) = true ->
+  length out = k /\ NoDup out /\ ~ In a out /\ (forall b, In b out -> In b (akeys ds)) /\
+  (forall b x d, In b out -> In (x, d) ds -> x <> a -> ~ In x out -> dist_of ds b <= d).
+Proof. exact nearest_nbrs_sound. Qed.
+Print Assumptions C10_nearest_neighbors.
 
 (* ... and the question always has such an answer: for every reachable state, query point and k <= n some
    outcome is accepted (so the check above is never vacuous and never forces a refusal) *)
@@ -168,6 +189,11 @@ Theorem C10_legacy_radius_exact : forall c (m : amap) q r ic a,
             (ic = true \/ 0 < dist2 (lc_torus c) (lc_bounds c) p q).
 Proof. exact legacy_neighbors_exact. Qed.
 Print Assumptions C10_legacy_radius_exact.
+
+Theorem C10_legacy_radius_no_duplicates : forall c (m : amap) q r ic,
+  NoDup (akeys m) -> NoDup (spec_neighbors c m q r ic).
+Proof. exact legacy_neighbors_nodup. Qed.
+Print Assumptions C10_legacy_radius_no_duplicates.
 
 (* END TO END: get_neighbors issued after ANY history (cache absent, freshly built, or built earlier and patched by
    moves since) returns exactly the agents whose last assigned (wrapped) position is within the radius *)
@@ -345,5 +371,6 @@ Example C10_geometry_example :
   bounds_ok bs = true /\ in_closed bs [-8; 8; 8] = true /\ in_closed bs [40; 56; 40] = true /\
   dist2 true bs [-8; 8; 8] [40; 56; 40] = 512 /\ diffv true bs [-8; 8; 8] [40; 56; 40] = [-16; -16; 0] /\
   dist2 false bs [-8; 8; 8] [40; 56; 40] = 5632 /\
-  wrap bs [48; -1; 100] = [-16; 63; 36] /\ oob_half bs [48; 0; 8] = true /\ in_closed bs [48; 0; 8] = true.
+  wrap bs [48; -1; 100] = [-16; 63; 36] /\ oob_half bs [48; 0; 8] = true /\ in_closed bs [48; 0; 8] = true /\
+  axis_dist true 64 (-8) 40 = 16 /\ Z.abs (-8 - 40 + 1 * 64) = 16.
 Proof. vm_compute. repeat split; reflexivity. Qed.
